@@ -123,6 +123,9 @@ def all_variants():
                 add("overwrite_ok", "ok")
             add("append_ok", "ok")
             add("read_ok", "ok")
+            if st == "hive":
+                add("merge_bad_schema", "validation")
+                add("merge_ok", "ok")
     for nrg in (1, 2):
         out.append(dict(state="drill1", nrg=nrg, kind="append_to_drill", expect="validation"))
     return out
@@ -204,6 +207,20 @@ def build(v, rng, sid):
             kw = {"filters": [["zz", "==", 1]], "row_filter": rng.choice([False, True])}
         else:
             kw = {"columns": [cols[0], cols[-1]]}
+    elif kind in ("merge_bad_schema", "merge_ok"):
+        # writer.merge(existing part files + one more file lying in the directory): refused when the schemas differ
+        api = "merge"
+        other = gen_frame(order, st, rng.choice([1, 3]), rng)
+        if kind == "merge_bad_schema":
+            how = rng.choice(["extra", "missing", "dtype"])
+            if how == "extra":
+                other.insert(idx, ["zz", "int64", [1] * len(other[0][2])])
+            elif how == "missing":
+                del other[idx]
+            else:
+                j = [i for i, f in enumerate(other) if f[0] == "c"][0]
+                other[j][1], other[j][2] = "int64", [1] * len(other[0][2])
+        kw = {"other": other}
     elif kind in ("overwrite_simple", "overwrite_nopart", "overwrite_ok"):
         kw = {"file_scheme": scheme, "append": "overwrite", "row_group_offsets": off1}
     elif kind == "overwrite_cols":
@@ -274,6 +291,8 @@ def abstract_request(sc, pf):
     kw = sc["kwargs"]
     df1 = L.to_df(sc["frame1"])
     labs = [L.sx_label(l) for l in L.labels(sc["frame1"])]
+    if sc["api"] == "merge":
+        return ["merge", 0 if sc["variant"]["kind"] == "merge_bad_schema" else 1]      # the generator's intent: schemas differ / agree
     if sc["api"] == "read":
         fcols = [f[0].encode() for f in kw.get("filters", [])]
         return ["read", [c.encode() for c in kw.get("columns", [])], fcols]
@@ -371,6 +390,9 @@ def run_scenario(arg):
         else:
             shutil.copytree(pristine, work)
             root = work
+        if sc["api"] == "merge":
+            write(os.path.join(work, "other.parquet"), L.to_df(sc["kwargs"]["other"]), object_encoding={"b": "int", "s": "utf8"},
+                  has_nulls=False, write_index=False)
         snap0 = dsfs.snapshot(root)
         rec = L.PosRecorder(root, keep_data=False)
         raised = None
@@ -381,6 +403,10 @@ def run_scenario(arg):
                     if "filters" in kw:
                         kw["filters"] = [tuple(f) for f in kw["filters"]]
                     ParquetFile(work, open_with=rec.open_with).to_pandas(**kw)
+                elif sc["api"] == "merge":
+                    from fastparquet.writer import merge
+                    parts = sorted(os.path.join(work, r) for r in refs)
+                    merge(parts + [os.path.join(work, "other.parquet")], open_with=rec.open_with)
                 elif sc["kwargs"].get("append") == "overwrite":
                     # no wrappers here: with a user-supplied open_with the ParquetFile inside writer.overwrite has no `.fs`
                     # and _sort_part_names cannot rename (observation recorded in notes/C09.md); the audit hook records the calls
